@@ -697,16 +697,29 @@ class _Sites(ast.NodeVisitor):
     Keyword-argument values and dict keys are ordinary children here, so they are hit like positional
     arguments.  `annotation` is known only for literals that are direct arguments of a Cirq callable."""
 
+    # literals handed to these libraries' own constructors are left alone: what Cirq's JSON keeps of a
+    # sympy.Float (an 'approx' double) or a datetime (a float timestamp) is a documented approximation, so
+    # precision=1 or the year 5 would only show that
+    FOREIGN = ("sympy", "datetime", "pd", "nx")
+
     def __init__(self):
         self.sites = []
+        self.foreign = 0
+
+    @staticmethod
+    def _root(func):
+        while isinstance(func, ast.Attribute):
+            func = func.value
+        return func.id if isinstance(func, ast.Name) else None
 
     def generic_visit(self, node):
         if isinstance(node, ast.Call):
-            self.generic_visit(node.func) if not isinstance(node.func, (ast.Attribute, ast.Name)) else None
-            for i, a in enumerate(node.args):
-                self._consider(node, "args", i, a, (node.func, i))
-            for kw in node.keywords:
-                self._consider(kw, "value", None, kw.value, (node.func, kw.arg) if kw.arg else None)
+            foreign = self._root(node.func) in self.FOREIGN
+            self.foreign += foreign
+            try:
+                self._visit_call(node)
+            finally:
+                self.foreign -= foreign
             return
         for field, value in ast.iter_fields(node):
             if isinstance(value, list):
@@ -716,9 +729,20 @@ class _Sites(ast.NodeVisitor):
             elif isinstance(value, ast.AST):
                 self._consider(node, field, None, value, None)
 
+    def _visit_call(self, node):
+        if True:
+            for i, a in enumerate(node.args):
+                self._consider(node, "args", i, a, (node.func, i))
+            for kw in node.keywords:
+                self._consider(kw, "value", None, kw.value, (node.func, kw.arg) if kw.arg else None)
+
     def _consider(self, parent, field, index, node, argctx):
         if isinstance(parent, ast.Attribute):
             self.generic_visit(node)
+            return
+        if self.foreign and not isinstance(node, ast.Call):
+            if not isinstance(node, (ast.Constant, ast.UnaryOp)):
+                self.generic_visit(node)      # there may be Cirq calls further down
             return
         ann = _annotation_of(*argctx) if argctx is not None else ""
         if isinstance(node, ast.UnaryOp) and isinstance(node.op, ast.USub) and isinstance(node.operand, ast.Constant) \
